@@ -37,5 +37,9 @@ def check(run, model, tier):
     n = hsmrules.signal_sets(run, model, ['dispatch'])
     run.floor('handler-call sites in dispatch', n, 6)
     hsmrules.status_distinct_rule(run, model)
+    # the search starts at the current state only if undecorated handlers are never sent a REFLECTION query (they answer it by naming their parent, which moves the cursor):
+    # start_at must switch instrumentation off unless the handlers are spy_on wrappers
+    from props.c18 import detect_spy_decoration
+    detect_spy_decoration(run, model)
     run.assume('H1-H4 handler protocol (see C01); a handler that answers HANDLED/IGNORED/UNHANDLED has not called chart.trans')
     hsmrules.protocol_census(run, model)
